@@ -388,6 +388,16 @@ def slice_assign(ex, base, sl, v, node):
 
 
 def unpack_other(ex, v, n, node):
+    """Unpacking an object known only by reference into n targets: TypeError if its class is not iterable;
+    otherwise ValueError unless it yields exactly n items (which nothing here guarantees), and the items are
+    unknown objects."""
+    if isinstance(v, VOpaque) and v.cls:
+        info = ex.find_class(v.cls)
+        if info is not None:
+            if info.find_method('__iter__') is None and info.find_method('__getitem__') is None:
+                ex.raise_('TypeError', node)
+            ex.may_raise(z3.Bool(ex.fresh_name('wrong_item_count')), 'ValueError', node, kind='unpack')
+            return [VOpaque(z3.Const(ex.fresh_name('item'), RefSort), 'object') for _ in range(n)]
     return None
 
 
@@ -587,7 +597,7 @@ def list_comp(ex, node):
 
 # ------------------------------------------------------------------ builtin calls
 BUILTINS = {}
-NO_RESOLVE = {'hash'}
+NO_RESOLVE = {'isinstance', 'hash'}
 
 
 def builtin(*names):
@@ -682,6 +692,16 @@ def class_of_value(ex, v):
 @builtin('isinstance')
 def _isinstance(ex, fn, args, kw, node):
     v, cls = args
+    if ex.is_unresolved(v):
+        # union-aware, no case split: Or over the alternatives whose class matches
+        def one(a, _b):
+            r = _isinstance(ex, fn, [a, cls], kw, node)
+            c = r.concrete()
+            return c if c is not None else r
+        t = ex.lift2(one, v, NONE)
+        return VBool(t)
+    v = ex.res(v)
+    cls = ex.res(cls) if not isinstance(cls, VTuple) else cls
     names = class_of_value(ex, v)
     if names is None:
         ex.limit(f'isinstance on value of unknown class {v}', node)
